@@ -11,6 +11,9 @@ extra = {
  'b': '\nADDITIONAL REQUIREMENT: make the defect depend on TWO things at once (for example a particular size AND a particular position, or a particular kind AND a second call), and avoid the most obvious candidate function: pick a less central code path that the property still covers.',
  'd': '\nADDITIONAL REQUIREMENT: make TWO cooperating edits in two DIFFERENT functions (preferably different files), each of which looks harmless or even like a clean-up when reviewed alone and neither of which breaks the property alone; only together do they break it. patch.diff contains both. In meta.json describe both sites.',
  'e': '\nADDITIONAL REQUIREMENT: disguise the defect as a performance optimisation (a cache, a fast path, an early exit, a skipped copy, a reused buffer or agent) with a plausible comment; it must be wrong only in a corner case that ordinary use does not hit.',
+ 'f': '\nADDITIONAL REQUIREMENT: the defect must only show for a specific element/key TYPE or VALUE CLASS (for example: the zero value of the type, an empty string or empty collection as element, nil inside a container, NaN or negative zero, a value at an integer boundary, a non-ASCII rune or string, a rune vs an int32, an unsigned value above the signed range, a very long value, a repeated value) while the same operations on ordinary small ints or short ASCII strings stay correct.',
+ 'g': '\nADDITIONAL REQUIREMENT: put the defect into an OBSERVER / accessor / metadata path (for example GetSize, IsEmpty, GetCapacity, GetCollator, GetKeys, GetValues, GetIndex, Contains*, HasNext/HasPrevious, GetSlot, AsArray, String/FormatValue of a particular kind) or into a CONSTRUCTOR path, not into the central mutating method; it must be wrong only in a corner case.',
+ 'h': '\nADDITIONAL REQUIREMENT: make the defect STATE-DEPENDENT: it must only show AFTER a specific earlier operation on the same instance (for example after RemoveAll, after a sort/reverse/shuffle, after a call that panicked, after the capacity was reached once, after an iterator was taken, after a close) - the same later operation on a fresh instance is correct.',
  'c': '\nADDITIONAL REQUIREMENT: the change must be a one-token or one-line edit (an operator, a constant, an index expression, an omitted statement) somewhere OTHER than the function a reviewer would look at first; it must only matter for inputs that are large, deeply nested, or at a boundary.',
 }[variant]
 for pid in sys.argv[2:]:
